@@ -416,6 +416,7 @@ func wrapShards(prop string, tier string) []engine.Shard {
 							r.cfg = pc.Config()
 							r.outcomes = map[uint64]struct{}{}
 							l.Inputs.Each(func(in []byte) {
+								st.SetNote(fmt.Sprintf("Wrap %s %s input %q", pc.Kind, pc.JSON, in))
 								r.input = in
 								before := len(r.outcomes)
 								ex, pts := engine.Explore(l.Bound, r.run)
